@@ -3,6 +3,9 @@ package main
 // Models of time, cosmos-sdk leaf helpers and lava logging.
 
 import (
+	"go/types"
+	"strconv"
+	"fmt"
 	"math"
 	"math/big"
 	"strings"
@@ -164,6 +167,26 @@ func init() {
 			return Str{}
 		}
 	}
+	// proto.CompactTextString (reflection): a canonical text of the concrete message - non-zero fields in declaration
+	// order as name:value.  Injective on concrete messages, which is what its callers (map keys, log lines) rely on.
+	for _, n := range []string{"github.com/gogo/protobuf/proto.CompactTextString", "github.com/cosmos/gogoproto/proto.CompactTextString"} {
+		models[n] = func(ex *Exec, fn *ssa.Function, args []Value) Value {
+			i, ok := args[0].(Iface)
+			if !ok || i.t == nil {
+				return Str{s: "<nil>"}
+			}
+			pt, ok := i.t.Underlying().(*types.Pointer)
+			p, okp := i.v.(*Value)
+			if !ok || !okp || p == nil {
+				return Str{s: "<nil>"}
+			}
+			txt, ok := ex.compactText(*p, pt.Elem(), 0)
+			if !ok {
+				return ex.opaqueStr("prototext:" + pt.Elem().String())
+			}
+			return Str{s: txt}
+		}
+	}
 	models["github.com/pkg/errors.WithStack"] = func(ex *Exec, fn *ssa.Function, args []Value) Value { return args[0] }
 	models["runtime.Callers"] = func(ex *Exec, fn *ssa.Function, args []Value) Value { return ex.ctx.Int(0) }
 
@@ -268,4 +291,77 @@ func init() {
 	models["math/bits.Len16"] = lenModel(16)
 	models["math/bits.Len8"] = lenModel(8)
 	models["math/bits.Len"] = lenModel(64)
+}
+
+func (ex *Exec) compactText(v Value, t types.Type, depth int) (string, bool) {
+	if depth > 6 {
+		return "", false
+	}
+	switch u := types.Unalias(t).Underlying().(type) {
+	case *types.Struct:
+		st, ok := v.(Struct)
+		if !ok || len(st) != u.NumFields() {
+			return "", false
+		}
+		var sb strings.Builder
+		for i := range st {
+			if !u.Field(i).Exported() {
+				continue
+			}
+			f, ok := ex.compactText(st[i], u.Field(i).Type(), depth+1)
+			if !ok {
+				return "", false
+			}
+			if f == "" || f == "0" || f == "false" || f == "\"\"" {
+				continue
+			}
+			sb.WriteString(u.Field(i).Name() + ":" + f + " ")
+		}
+		return sb.String(), true
+	case *types.Basic:
+		switch x := v.(type) {
+		case Str:
+			if !x.isConcrete() {
+				return "", false
+			}
+			return strconv.Quote(x.s), true
+		case *Term:
+			if !x.isConst {
+				return "", false
+			}
+			if x.sort == SBool {
+				return fmt.Sprint(x.cBool), true
+			}
+			return x.cInt.String(), true
+		}
+		return "", false
+	case *types.Slice:
+		sl, ok := v.(SliceV)
+		if !ok {
+			return "", v == nil
+		}
+		var parts []string
+		for _, e := range sl {
+			f, ok := ex.compactText(e, u.Elem(), depth+1)
+			if !ok {
+				return "", false
+			}
+			parts = append(parts, f)
+		}
+		if len(parts) == 0 {
+			return "", true
+		}
+		return "[" + strings.Join(parts, ",") + "]", true
+	case *types.Pointer:
+		p, ok := v.(*Value)
+		if !ok {
+			return "", false
+		}
+		if p == nil {
+			return "", true
+		}
+		f, ok := ex.compactText(*p, u.Elem(), depth+1)
+		return "<" + f + ">", ok
+	}
+	return "", false
 }
